@@ -142,9 +142,16 @@ pub fn migrate_step(
     } else if set_version.as_deref() == Some("<garbage>") {
         sim.chain.storage.data.insert(b"version_info".to_vec(), b"{not json".to_vec());
     } else if let Some(v) = set_version {
+        // older deployments wrote other definition strings; the version is what gates a migration
+        let alt_def: Option<&str> = match v2_seed % 7 {
+            0 => Some("ats-smart-contract"),
+            1 => Some("def"),
+            _ => None,
+        };
         let def = book::read_version(&sim.chain.storage)
             .map(|x| x.0)
             .unwrap_or_else(|| "ats_smart_contract".to_string());
+        let def = alt_def.map(|d| d.to_string()).unwrap_or(def);
         sim.chain.storage.data.insert(
             b"version_info".to_vec(),
             serde_json::to_vec(&json!({"definition": def, "version": v})).unwrap(),
@@ -259,8 +266,41 @@ pub fn migrate_step(
                 format!("migration from supported version {:?} refused: {}", stored_version, t),
             )
         }
-        (MigExpect::DontCare(r), _) => {
+        (MigExpect::DontCare(r), acc) => {
             *sim.cov.dontcare.entry(r).or_insert(0) += 1;
+            if acc && *r == "invalid_override" {
+                // an override that cannot be applied as a fee / address may be refused; if the
+                // migration goes through, the field is either untouched or installed as written -
+                // anything else is a change nobody requested
+                if let Ok(after) = book::read_cfg(&sim.chain.storage) {
+                    let o = msg.as_object().cloned().unwrap_or_default();
+                    let gs = |k: &str| o.get(k).and_then(|v| v.as_str()).map(|x| x.to_string());
+                    for (side, pre, post) in [("ask", &cfg_pre.ask_fee, &after.ask_fee), ("bid", &cfg_pre.bid_fee, &after.bid_fee)] {
+                        let rate = gs(&format!("{}_fee_rate", side));
+                        let acct = gs(&format!("{}_fee_account", side));
+                        let verdict = model::fee_pair(&rate, &acct);
+                        let allowed: Vec<Option<crate::book::FeeCfg>> = match verdict {
+                            model::PairVerdict::NotSupplied | model::PairVerdict::Half => vec![pre.clone()],
+                            model::PairVerdict::Clear => vec![None],
+                            model::PairVerdict::Install(f) => vec![Some(f)],
+                            model::PairVerdict::BadRate | model::PairVerdict::OddRate => vec![
+                                pre.clone(),
+                                Some(crate::book::FeeCfg { account: acct.clone().unwrap_or_default(), rate: rate.clone().unwrap_or_default() }),
+                            ],
+                            model::PairVerdict::BadAccount(f) => vec![pre.clone(), Some(f)],
+                        };
+                        if !allowed.contains(post) {
+                            sim.flag(
+                                &["C14"],
+                                "C14.config_overrides",
+                                kind,
+                                "invalid_override",
+                                format!("{} fee after migration is {:?}; requested pair ({:?}, {:?}) allows only {:?}", side, post, rate, acct, allowed),
+                            );
+                        }
+                    }
+                }
+            }
         }
         _ => {}
     }
